@@ -309,6 +309,14 @@ pub fn main(args: &[String]) -> i32 {
                 gate.step();
                 ("gcstep".into(), "= done".into())
             }
+            "rawdump" => {
+                // the raw keys of the three partitions (hook Store::verif_raw_keys): compared with the model's partitions
+                let (a, b, c) = store.verif_raw_keys();
+                let hx = |v: &Vec<Vec<u8>>| {
+                    v.iter().map(|k| k.iter().map(|x| format!("{:02x}", x)).collect::<String>()).collect::<Vec<_>>().join(",")
+                };
+                ("rawdump".into(), format!("= raw S[{}] T[{}] C[{}]", hx(&a), hx(&b), hx(&c)))
+            }
             "drain" => {
                 writeln!(trace, "PRE drain").unwrap();
                 gate.drain();
